@@ -34,6 +34,17 @@ def items():
     return out
 
 
+def deep_items():
+    """three levels: if / elif / elif / else chains and triply nested ifs, one atom per block"""
+    out = []
+    B = blocks()
+    for b1, b2, b3, b4 in itertools.product(B, repeat=4):
+        out.append(['if c:'] + indent(b1) + ['elif d:'] + indent(b2) + ['elif c:'] + indent(b3) + ['else:'] + indent(b4))
+        out.append(['if c:'] + indent(['if d:'] + indent(['if c:'] + indent(b1) + ['else:'] + indent(b2)) + ['else:'] + indent(b3))
+                   + ['else:'] + indent(b4))
+    return out
+
+
 HEADER = ['c = input()', 'd = input()']
 
 
@@ -291,6 +302,12 @@ def bounded(arg):
     seqs += [list(p) for p in pairs]
     for _ in range(300 if quick else 6000):
         seqs.append([rnd.choice(IT) for _ in range(rnd.choice([3, 4]))])
+    deep = [[pre, d, post] if pre else [d, post] for d in deep_items() for pre in (None, ['a = 1'], ['b = 2'])
+            for post in (['print(a)'], ['print(b)'])]
+    if quick:
+        rnd.shuffle(deep)
+        deep = deep[:500]
+    seqs += deep
     failures, samples = [], []
     evaluations = 0
     distinct = set()
@@ -315,8 +332,8 @@ def bounded(arg):
     samples = [{'program': build(seqs[200])}, {'program': build(seqs[-1])}, {'program': code}]
     return {'name': 'B-tifa-flow', 'bound': ('%d random programs with for / while loops (0-2 iterations), nested branches and a called '
             'function, each run natively under every choice sequence (%d executions); ' % (nloop, total_runs)) + '%d programs over variables a, b: all single items and %s ordered pairs of %d items (atoms, '
-            'if / if-else / if-elif-else / nested if with one-statement blocks) plus random sequences of 3-4 items; oracle = '
-            'enumeration of all branch-outcome combinations' % (len(seqs), 'sampled' if quick else 'all', len(IT)),
+            'if / if-else / if-elif-else / nested if with one-statement blocks) plus random sequences of 3-4 items, plus %s of the 3072 programs around an if/elif/elif/else chain or a triply nested if; oracle = '
+            'enumeration of all branch-outcome combinations' % (len(seqs), 'sampled' if quick else 'all', len(IT), '500' if quick else 'all'),
             'evaluations': evaluations, 'distinct_nontrivial': len(distinct),
             'rule': 'distinct = program text', 'samples': samples, 'failures': failures}
 
